@@ -12,11 +12,11 @@ package selector
 //@ pure func silen(s Selector) mathint
 //@ pure func siat(s Selector, j mathint) datamodel.PathSegment
 //@ interface Selector.Interests() (r)
-//@   assigns nothing
+//@   assigns[C20] nothing
 //@   ensures (r == nil) == (silen(recv) < 0)
 //@   ensures r != nil ==> len(r) == silen(recv) && (forall j mathint :: 0 <= j && j < len(r) ==> r[j] == siat(recv, j))
 //@ interface Selector.Explore(n, ps) (s, err)
-//@   assigns nothing
+//@   assigns[C20] nothing
 // Deciding and matching are deterministic functions of the selector and the node's value (the matched
 // node of a subset matcher is a new object each time: only its nil-ness and its value are named).
 //@ pure func seldecides(s Selector, n datamodel.Node) bool
@@ -24,10 +24,10 @@ package selector
 //@ pure func selmatchval(s Selector, n datamodel.Node) datamodel.Val
 //@ pure func selmatchfails(s Selector, n datamodel.Node) bool
 //@ interface Selector.Decide(n) (r)
-//@   assigns nothing
+//@   assigns[C20] nothing
 //@   ensures r == seldecides(recv, n)
 //@ interface Selector.Match(n) (m, err)
-//@   assigns nothing
+//@   assigns[C20] nothing
 //@   ensures (m == nil) == selmatchnil(recv, n) && (m != nil ==> m.val == selmatchval(recv, n)) && (err != nil) == selmatchfails(recv, n)
 
 // ---- subset matcher bounds (from the documentation of Slice: [From,To), negative = from the end,
@@ -38,7 +38,7 @@ package selector
 
 //@ func sliceBounds(from, to, length) (ok, f, t)
 //@   requires length >= 0
-//@   assigns nothing
+//@   assigns[C20] nothing
 //@   ensures[C07,C10] ok ==> 0 <= f && f <= t && t <= length && f < length
 //@   ensures[C07] ok ==> f == normFrom(from, length) && t == normTo(to, length)
 //@   ensures[C07] ok == (normFrom(from, length) <= normTo(to, length) && normFrom(from, length) < length)
@@ -47,55 +47,55 @@ package selector
 // ---- clause algebra (from the selector specification, C07) ----
 
 //@ func (ExploreAll).Interests() (r)
-//@   assigns nothing
+//@   assigns[C20] nothing
 //@   ensures[C07] r == nil
 //@ func (ExploreAll).Explore(n, p) (r, err)
-//@   assigns nothing
+//@   assigns[C20] nothing
 //@   ensures[C07] err == nil && r == s.next
 //@ func (ExploreAll).Match(node) (r, err)
-//@   assigns nothing
+//@   assigns[C20] nothing
 //@   ensures[C07] r == nil && err == nil
 
 //@ func (ExploreIndex).Interests() (r)
-//@   assigns nothing
+//@   assigns[C20] nothing
 //@   ensures[C07] len(r) == 1 && r[0] == s.interest[0]
 //@ func (ExploreIndex).Explore(n, p) (r, err)
 //@   requires n != nil
-//@   assigns nothing
+//@   assigns[C20] nothing
 //@   ensures[C07] err == nil && (r == nil || r == s.next)
 //@   ensures[C07] datamodel.vkind(n.val) != datamodel.Kind_List ==> r == nil
 //@   ensures[C07] datamodel.vkind(n.val) == datamodel.Kind_List && p.i >= 0 && s.interest[0].i >= 0 ==> (p.i == s.interest[0].i ==> r == s.next) && (p.i != s.interest[0].i ==> r == nil)
 //@ func (ExploreIndex).Match(node) (r, err)
-//@   assigns nothing
+//@   assigns[C20] nothing
 //@   ensures[C07] r == nil && err == nil
 
 //@ func (ExploreRange).Interests() (r)
-//@   assigns nothing
+//@   assigns[C20] nothing
 //@   ensures[C07] r == s.interest
 //@ func (ExploreRange).Explore(n, p) (r, err)
 //@   requires n != nil
-//@   assigns nothing
+//@   assigns[C20] nothing
 //@   ensures[C07] err == nil && (r == nil || r == s.next)
 //@   ensures[C07] datamodel.vkind(n.val) != datamodel.Kind_List ==> r == nil
 //@   ensures[C07] datamodel.vkind(n.val) == datamodel.Kind_List && p.i >= 0 ==> (s.start <= p.i && p.i < s.end ==> r == s.next) && (!(s.start <= p.i && p.i < s.end) ==> r == nil)
 //@ func (ExploreRange).Match(node) (r, err)
-//@   assigns nothing
+//@   assigns[C20] nothing
 //@   ensures[C07] r == nil && err == nil
 
 //@ func (ExploreFields).Interests() (r)
-//@   assigns nothing
+//@   assigns[C20] nothing
 //@   ensures[C07] r == s.interests
 //@ func (ExploreFields).Explore(n, p) (r, err)
-//@   assigns nothing
+//@   assigns[C20] nothing
 //@   ensures[C07] err == nil && (indom(s.selections, datamodel.segstr(p)) ==> r == s.selections[datamodel.segstr(p)]) && (!indom(s.selections, datamodel.segstr(p)) ==> r == nil)
 //@ func (ExploreFields).Match(node) (r, err)
-//@   assigns nothing
+//@   assigns[C20] nothing
 //@   ensures[C07] r == nil && err == nil
 
 //@ func (Matcher).Interests() (r)
 //@   ensures[C07] r != nil && len(r) == 0
 //@ func (Matcher).Explore(n, p) (r, err)
-//@   assigns nothing
+//@   assigns[C20] nothing
 //@   ensures[C07] r == nil && err == nil
 //@ func (Matcher).Match(node) (r, err)
 //@   requires s.Slice != nil ==> node != nil
@@ -145,7 +145,7 @@ package selector
 //@ func (ExploreUnion).Interests() (r)
 //@   requires forall i mathint :: 0 <= i && i < len(s.Members) ==> s.Members[i] != nil
 //@   requires membercount(s) == len(s.Members) && (forall i mathint :: 0 <= i && i < len(s.Members) ==> memberat(s, i) == s.Members[i])
-//@   assigns nothing
+//@   assigns[C20] nothing
 //@   ensures[C07,C16] (exists k mathint :: 0 <= k && k < len(s.Members) && silen(s.Members[k]) < 0) ==> r == nil
 //@   ensures[C07,C16] (forall k mathint :: 0 <= k && k < len(s.Members) ==> silen(s.Members[k]) >= 0) ==> r != nil && len(r) == isum(s, len(s.Members))
 //@   ensures[C07,C16] r != nil ==> forall k mathint, j mathint :: 0 <= k && k < len(s.Members) && 0 <= j && j < silen(s.Members[k]) ==> r[isum(s, k) + j] == siat(s.Members[k], j)
@@ -166,13 +166,13 @@ package selector
 // ---- recursion: limits only count down, the edge is replaced by the sequence ----
 
 //@ func (ExploreRecursive).hasRecursiveEdge(nextSelector) (r)
-//@   assigns nothing
+//@   assigns[C20] nothing
 //@   ensures[C07] dyntype(nextSelector, "ExploreRecursiveEdge") ==> r
 //@   ensures[C07] !dyntype(nextSelector, "ExploreRecursiveEdge") && !dyntype(nextSelector, "ExploreUnion") ==> !r
 //@   loop 0 invariant 0 - 1 <= rangeindex && rangeindex < len(exploreUnion.Members)
 //@ pure func plainclause(sel Selector) bool = !dyntype(sel, "ExploreRecursiveEdge") && !dyntype(sel, "ExploreUnion")
 //@ func (ExploreRecursive).replaceRecursiveEdge(nextSelector, replacement) (r)
-//@   assigns nothing
+//@   assigns[C20] nothing
 //@   ensures[C07] dyntype(nextSelector, "ExploreRecursiveEdge") ==> r == replacement
 //@   ensures[C07] plainclause(nextSelector) ==> r == nextSelector
 //@   ensures[C07] dyntype(nextSelector, "ExploreUnion") && (exists i mathint :: 0 <= i && i < len(unbox(nextSelector, "ExploreUnion").Members) && plainclause(unbox(nextSelector, "ExploreUnion").Members[i]) && unbox(nextSelector, "ExploreUnion").Members[i] != nil) ==> r != nil
@@ -182,7 +182,7 @@ package selector
 // A compiled condition always carries the node it compares with (ParseCondition).
 //@ func (*Condition).Match(n) (r)
 //@   requires c != nil && n != nil && (c.mode == ConditionMode_Link ==> c.match != nil)
-//@   assigns nothing
+//@   assigns[C20] nothing
 
 //@ func (ExploreRecursive).Explore(n, p) (r, err)
 //@   requires n != nil && s.current != nil && (s.limit.mode == RecursionLimit_None || s.limit.mode == RecursionLimit_Depth)
@@ -308,12 +308,12 @@ package selector
 //@   ensures[C07,C10] err == nil ==> r.mode == ConditionMode_Link && r.match != nil && r.match.val == datamodel.vchild(n.val, 0) && datamodel.vkind(r.match.val) == datamodel.Kind_Link
 //@ func parseLimit(n) (r, err)
 //@   requires n != nil
-//@   assigns nothing
+//@   assigns[C20] nothing
 //@   ensures[C07,C10] err == nil ==> r.mode == RecursionLimit_None || r.mode == RecursionLimit_Depth
 //@   ensures[C07] err == nil ==> (r.mode == RecursionLimit_Depth) == (datamodel.vkeystr(n.val, 0) == SelectorKey_LimitDepth) && (r.mode == RecursionLimit_None) == (datamodel.vkeystr(n.val, 0) == SelectorKey_LimitNone)
 //@   ensures[C07] err == nil && r.mode == RecursionLimit_Depth ==> r.depth == datamodel.vint(datamodel.vchild(n.val, 0))
 //@ func (ParseContext).PushParent(parent) (r)
-//@   assigns nothing
+//@   assigns[C20] nothing
 //@   ensures[C10] len(r.parentStack) == len(pc.parentStack) + 1 && r.parentStack[0] == parent
 //@   ensures[C10] forall j mathint :: 1 <= j && j < len(r.parentStack) ==> r.parentStack[j] == pc.parentStack[j-1]
 // The subset matcher: only strings and bytes can match; a string matches with exactly the bytes
@@ -345,7 +345,7 @@ package selector
 //@   ensures err == nil && datamodel.vkind(recv.src) == datamodel.Kind_Map ==> ps.i < 0 && ps.s == datamodel.vkeystr(recv.src, old(recv.pos))
 //@   ensures err != nil ==> recv.pos == old(recv.pos)
 //@ interface SegmentIterator.Done() (d)
-//@   assigns nothing
+//@   assigns[C20] nothing
 //@   noalloc
 //@   ensures d == (recv.pos >= datamodel.vlen(recv.src))
 //@   ensures 0 <= recv.pos
@@ -358,7 +358,7 @@ package selector
 //@   ensures[C16] err != nil ==> lsi.ListIterator.pos == old(lsi.ListIterator.pos)
 //@ func (listSegmentIterator).Done() (d)
 //@   requires lsi.ListIterator != nil
-//@   assigns nothing
+//@   assigns[C20] nothing
 //@   ensures[C16] d == (lsi.ListIterator.pos >= datamodel.vlen(lsi.ListIterator.src))
 //@ func (mapSegmentIterator).Next() (ps, v, err)
 //@   requires msi.MapIterator != nil && datamodel.vkind(msi.MapIterator.src) == datamodel.Kind_Map
@@ -367,7 +367,7 @@ package selector
 //@   ensures[C16] err != nil ==> msi.MapIterator.pos == old(msi.MapIterator.pos)
 //@ func (mapSegmentIterator).Done() (d)
 //@   requires msi.MapIterator != nil
-//@   assigns nothing
+//@   assigns[C20] nothing
 //@   ensures[C16] d == (msi.MapIterator.pos >= datamodel.vlen(msi.MapIterator.src))
 
 // ---- C20: a compiled selector is only read (frame sweep) ----
